@@ -137,8 +137,8 @@ def check(prop, tier, procs=None, only=None):
             if is_lib:
                 if not lib_clause_counts(r["meta"], cl["clause"], used):
                     continue
-            elif prop not in tags and not any(a in tags for a in also):
-                continue
+            elif prop not in tags and not any(a in tags for a in also) and not cl["clause"].startswith("helper:"):
+                continue          # (helper clauses -- the abstract unit semantics -- always count: refuted => exit 2)
             oid = f"{r['job']}:{cl['clause']}"
             obligations.append(dict(id=oid, job=r["job"], clause=cl["clause"], status=cl["status"], vcs=cl["vcs"],
                                     time_s=round(cl["time_s"], 4), backends=cl["backends"], model=cl["model"],
